@@ -578,7 +578,11 @@ pub fn run_property(prop: &'static dyn Property, tier: Tier) -> i32 {
     let seed = seed_from_env();
     let id = prop.id();
     let kf = Arc::new(KnownFindings::load());
-    let plan = prop.plan(tier);
+    let mut plan = prop.plan(tier);
+    // experimentation knob (not used by registered commands): override the number of generated cases
+    if let Some(n) = std::env::var("VERIF_CASES").ok().and_then(|s| s.parse::<usize>().ok()) {
+        plan.random_cases = n;
+    }
     let shards = plan.shards.max(1);
     let stats = Arc::new(Mutex::new(Stats::default()));
     let watchdog = Duration::from_secs(plan.watchdog_s);
